@@ -6,6 +6,7 @@ package main
 // as a set, G distinct blocks.  Under the -race build the race detector watches the same calls.
 
 import (
+	"github.com/coredhcp/coredhcp/plugins/allocators/bitmap"
 	"fmt"
 	"net"
 	"os"
@@ -231,6 +232,52 @@ func runAllocConcurrent(c *Ctx, rounds int) {
 		c.Count(fmt.Sprintf("concurrent-rounds:pool%d", pi))
 		c.Dist[fmt.Sprintf("concurrent-rounds:pool%d", pi)] = rounds
 	}
+	// the very first Allocate calls on a FRESH allocator, made at the same moment (a server that has
+	// just started and hears several new clients at once): distinct addresses
+	trials := c.Scale(1500, 20000)
+	for tr := 0; tr < trials; tr++ {
+		a, err := bitmap.NewIPv4Allocator(net.IP{10, 5, 0, 1}, net.IP{10, 5, 0, 40})
+		if err != nil {
+			break
+		}
+		const K = 4
+		var start int32
+		var wg sync.WaitGroup
+		got := make([]net.IP, K)
+		for g := 0; g < K; g++ {
+			wg.Add(1)
+			go func(g int) {
+				defer wg.Done()
+				for atomic.LoadInt32(&start) == 0 {
+				}
+				if n, err := a.Allocate(net.IPNet{}); err == nil {
+					got[g] = n.IP
+				}
+			}(g)
+		}
+		atomic.StoreInt32(&start, 1)
+		wg.Wait()
+		seenIP := map[string]int{}
+		dup := false
+		for g, ip := range got {
+			if ip == nil {
+				c.vio("C04", "concurrent-alloc-fails", "one of the first 4 simultaneous Allocate calls on a fresh 40-address allocator failed", nil)
+				dup = true
+				break
+			}
+			if prev, ok := seenIP[ip.String()]; ok {
+				c.vio("C04", "double-issue-concurrent", fmt.Sprintf("fresh IPv4 allocator: goroutines %d and %d, making the very first Allocate calls at the same moment, were both given %v", prev, g, ip), map[string]interface{}{"trial": tr})
+				dup = true
+				break
+			}
+			seenIP[ip.String()] = g
+		}
+		c.Evals++
+		if dup {
+			break
+		}
+	}
+	c.Dist["concurrent-first-allocations:trials"] = trials
 	c.Extra["concurrent_phase"] = fmt.Sprintf("%d goroutines x %d rounds x %d pools (2/3 of the rounds: all goroutines hint the same free block; 1/3: no hint), GOMAXPROCS=%d, race detector: %v", G, rounds, len(pools), runtime.GOMAXPROCS(0), os.Getenv("VERIF_RACE") == "1")
 }
 
